@@ -610,6 +610,7 @@ class StorageCommitment(MessageDispatcherSCP):
             asce.send(rsp, ctx.id)
 
             report = dimsemessages.NEventReportRQMessage()
+            report.message_id = msg.message_id
             report.sop_class_uid = ctx.sop_class
             report.affected_sop_instance_uid = instance_uid
             report.event_type_id = 2 if failure else 1
@@ -635,12 +636,17 @@ class StorageCommitment(MessageDispatcherSCP):
                     seq.append(ref)
                 report_ds.FailedSOPSequence = pydicom.Sequence(seq)
 
-            report.data_set = dsutils.encode(report_ds,
-                                             ctx.supported_ts.is_implicit_VR,
-                                             ctx.supported_ts.is_little_endian)
-
             with asce.ae.request_association(remote_ae) as assoc:
-                assoc.send(report, ctx.id)
+                # report goes over the presentation context that was accepted for
+                # the service in the new association, not the one of incoming association
+                try:
+                    pc_id, ts = assoc.sop_classes_as_scu[ctx.sop_class]
+                except KeyError:
+                    raise exceptions.ClassNotSupportedError(
+                        'SOP Class {} not supported as SCU'.format(ctx.sop_class))
+                report.data_set = dsutils.encode(report_ds, ts.is_implicit_VR,
+                                                 ts.is_little_endian)
+                assoc.send(report, pc_id)
                 assoc.receive()  # Get response. Current implementation ignores it
 
 
